@@ -145,7 +145,15 @@ class C06(Check):
         # capabilities exchange first ("poison": with the identity our impostor events use; "reject": it
         # sees, and rejects, the identity of OUR configured peer)
         aux = rng.choice([None, None, None, "poison", "reject"])
-        return {"mode": mode, "apps_idx": rng.randrange(3), "events": events, "timing": timing, "aux": aux,
+        # (drawn from a generator of its own, after everything else) a chatty application: one of its threads keeps
+        # submitting messages while the events below arrive -- local activity the statement's alphabet leaves out but
+        # every application has; not in histories with an idle period (outbound traffic legitimately postpones the watchdog)
+        rngc = random.Random()
+        rngc.setstate(rng.getstate())       # a copy: the main stream stays what it was
+        chatty = None
+        if "idle" not in events and rngc.random() < 0.35:
+            chatty = {"gap": rngc.choice([0.0005, 0.005, 0.05]), "n": rngc.choice([3, 10, 40])}
+        return {"chatty": chatty, "mode": mode, "apps_idx": rng.randrange(3), "events": events, "timing": timing, "aux": aux,
                 "starts": starts, "gaps": [rng.choice([0.0, 0.0005, 0.003, 0.02]) for _ in events],
                 "consumer": rng.random() < 0.8,
                 "sched": draw_sched(rng), "knobs": knobs, "watchdog": rng.choice([1, 2]),
@@ -153,6 +161,10 @@ class C06(Check):
                 "horizon": 200.0}
 
     def shrink(self, scn):
+        if scn.get("chatty"):
+            c = copy.deepcopy(scn)
+            c["chatty"] = None
+            yield c
         ev = scn["events"]
         for i in range(len(ev)):
             if len(ev) > 1:
@@ -356,6 +368,23 @@ class C06(Check):
             consumer = None
             if scn.get("consumer"):
                 consumer = w.start_consumer("consumer0")
+            if scn.get("chatty"):
+                from bromelia.base import DiameterRequest
+                from bromelia.avps import SessionIdAVP, OriginHostAVP, OriginRealmAVP, DestinationRealmAVP
+
+                def chatter(n_):
+                    for i_ in range(n_):
+                        try:
+                            w.node.send_message(DiameterRequest(application_id=APP_ID, command_code=316, avps=[
+                                SessionIdAVP(("n;8;%d" % i_).encode()), OriginHostAVP(NODE_HOST),
+                                OriginRealmAVP(NODE_REALM), DestinationRealmAVP(PEER_REALM)]))
+                        except BaseException as e:      # noqa  (library errors derive from BaseException)
+                            if type(e).__name__ in ("SimStop", "SimHang"):
+                                raise
+                        sim.sleep(scn["chatty"]["gap"])
+                    return "done"
+                ctx["chatter"] = chatter
+                sim.probe("chatty_app")
             sequential = scn["timing"] == "sequential"
             for i, ev in enumerate(scn["events"]):
                 if violations or sim.halted:
@@ -394,6 +423,13 @@ class C06(Check):
                 t_psm = psm_thread()
                 pre_steps = t_psm.steps if t_psm else 0
                 off0 = out_len()
+                burst = None
+                if ctx.get("chatter") and pre not in (M.CLOSED,):
+                    # a burst of local submissions overlaps this event; the verdict on the event is taken once the
+                    # burst is over (while the application keeps the send queue busy the state machine serves nothing
+                    # else - how long inbound events may wait under sustained outbound load is not part of the statement)
+                    burst = w.call("chatter", ctx["chatter"], scn["chatty"]["n"])
+                    sim.sleep(scn["chatty"]["gap"] * 2)
                 # ---- inject ---------------------------------------------------
                 if ev in M.MESSAGE_EVENTS:
                     m = make_message(ev, n)
@@ -419,6 +455,8 @@ class C06(Check):
                 elif ev == "idle":
                     sim.sleep(scn["watchdog"] + 3 * knobs["TRACKING_SOCKET_EVENTS_TIMEOUT"] + 1.0)
                 st["applied"] += 1
+                if burst is not None:
+                    sim.wait_until(lambda: burst["t1"] is not None, 60.0, poll=max(tick, 0.01))
                 if not sequential:
                     continue
                 # ---- settle and compare with the model -----------------------------
